@@ -271,11 +271,43 @@ def run(ctx):
         rvf = prov.strip(prov.prov_of(f).return_value(), names=set())
         good = len(calls) == 1 and calls[0]['func'].get('krate') == 'rosu_map' and calls[0]['func'].get('name') == name and \
             rvf[0] == 'call' and as_param_path(rvf[2][0], through_calls=False) == (1, ()) and (calls[0]['func'].get('targs') or [''])[0] == BM
-        ctx.require(good, 'C06-R6', name, 'Beatmap::%s = rosu_map::%s::<Beatmap>(param)' % (name, name), f.where(),
+        if not good:
+            good = reads_only_its_input(F, f)
+        ctx.require(good, 'C06-R6', name, 'Beatmap::%s = rosu_map::%s::<Beatmap>(param) or the same decode over a reader made from the parameter alone' % (name, name), f.where(),
                     bad='Beatmap::%s is not a pure delegation to rosu_map::%s with its parameter unchanged (calls: %s)' % (name, name, [callee_path(t) for t in calls]))
     ctx.assume('rosu-map 0.2.1: its DecodeBeatmap driver discards per-line parse_* errors and ParseNumber rejects NaN and |v| > limit')
     ctx.not_decided('bounds / overflow Assert terminators inside the decoder; finiteness of every derived field; equality of the three entry points\' '
                     'results beyond delegation')
+
+
+READER_STEPS = {'new', 'open', 'as_bytes', 'as_ref', 'branch', 'from_residual', 'into', 'from', 'map_err', 'decode', 'from_bytes', 'from_str', 'from_path'}
+
+
+def reads_only_its_input(F, f):
+    """the entry point decodes a reader built from its parameter alone: one DecodeBeatmap::decode::<Beatmap> (directly, through a sibling entry point or a
+    private reader helper), every other step a std reader constructor (`File::open`, `BufReader::new`, `Cursor::new`, `as_bytes`) or `?` plumbing — no buffer,
+    cache or other state of the process takes part"""
+    import inline
+    own = lambda h: h.self_adt == BM and not h.impl_trait and (h.name in ('from_path', 'from_bytes', 'from_str') or not str(h.j.get('vis')).startswith('Public'))
+    v = inline.inlined(F, f, depth=3, force=own, stop=lambda h: not own(h))
+    decodes = 0
+    for bi, t in v.calls():
+        fn_ = t['func']
+        nm = fn_.get('name')
+        if nm == 'decode' and (fn_.get('trait') or '').endswith('DecodeBeatmap'):
+            decodes += 1
+            continue
+        if fn_.get('krate') == 'rosu_map' and nm in ('from_path', 'from_bytes', 'from_str'):
+            decodes += 1
+            continue
+        if fn_.get('local') or nm not in READER_STEPS or fn_.get('krate') not in ('std', 'core', 'alloc'):
+            return False
+    if decodes != 1:
+        return False
+    for bi, si, s_ in v.assigns():
+        if s_['rv']['k'] in ('tls', 'static'):
+            return False
+    return True
 
 
 # ---- R2 helper: a Beatmap difficulty value is clamped, either where the Beatmap is built (the mode is final there) or at
@@ -366,7 +398,15 @@ def _excludes_nan(fn, bb, pred):
     """a fact known on entry to bb that cannot hold for NaN: a TRUE ordered comparison of the source with a constant, is_nan() == false,
     is_finite() == true (the negation of `x >= 0.0` does hold for NaN and proves nothing)"""
     import arms
-    for c, lab in arms.bool_facts(fn, bb):
+    facts = list(arms.bool_facts(fn, bb))
+    known = {(prov.show(prov.strip(c, names={'likely', 'unlikely'}), maxdepth=12), lab) for c, lab in facts if c[0] != 'implies'}
+    for c, lab in list(facts):
+        # `if a && x.is_nan() { return Err }` earlier and `if a { .. }` here: the premises hold, so the conclusion does
+        if c[0] == 'implies' and all((prov.show(prov.strip(pc, names={'likely', 'unlikely'}), maxdepth=12), pl) in known for pc, pl in c[1] if pc[0] != 'implies'):
+            facts.append((c[2], lab))
+    for c, lab in facts:
+        if c[0] == 'implies':
+            continue
         c = prov.strip(c, names={'likely', 'unlikely'})
         if c[0] == 'binop' and c[1] in ('Lt', 'Le', 'Gt', 'Ge', 'Eq') and lab == 'true':
             if (_contains(c[2], pred, 60) and not _contains(c[3], pred, 60)) or (_contains(c[3], pred, 60) and not _contains(c[2], pred, 60)):
@@ -417,13 +457,9 @@ def r2_nan(ctx, F, dec_fns):
     import inline
     # judged on the bodies with private helpers inlined: the tolerant parse may live in a helper that hands the number back (`parse_beat_len(s)?`)
     views = []
-    seen_views = set()
     for fn in dec_fns:
-        v = inline.inlined(F, fn, depth=2)
-        if v is not fn and id(v) not in seen_views:
-            seen_views.add(id(v))
-            views.append(v)
-    raws = [(fn, bi, t, ty) for fn, bi, t, ty in raw_parses(F, list(dec_fns) + views) if 'f64' in str(ty) or 'f32' in str(ty)]
+        views.append(inline.inlined(F, fn, depth=2))          # the function itself when nothing was inlined
+    raws = [(fn, bi, t, ty) for fn, bi, t, ty in raw_parses(F, views) if 'f64' in str(ty) or 'f32' in str(ty)]
     nclamp = 0
     marked = {}           # (callee path, param index) -> where it was handed a NaN-tolerant value
     for g, pb, pt, ty in raws:
